@@ -401,3 +401,30 @@ Proof.
     rewrite <- map_app. reflexivity.
   - split; [|reflexivity]. intro H. apply app_eq_nil in H as [_ H]. discriminate.
 Qed.
+
+(* ------------------------------------------------------------------ *)
+(* the strict reading "the NAME of a private attribute occurs nowhere in the emitted bytes" is
+   false: a public attribute is serialised as written, and its expression may refer to a private one *)
+Fixpoint prefixb (p s : bytes) : bool :=
+  match p, s with
+  | [], _ => true
+  | a :: p', b :: s' => byte_eqb a b && prefixb p' s'
+  | _ :: _, [] => false
+  end.
+Fixpoint infixb (needle hay : bytes) : bool :=
+  prefixb needle hay || match hay with [] => false | _ :: r => infixb needle r end.
+
+Definition emitted (st : sstate) : bytes := concat (map (fun f : tframe => fst (snd f)) (s_frames st)).
+
+Lemma names_refuted :
+  exists (c : config) (a : ad) (n : bytes),
+    include_private c = false /\ In n (map fst (ad_attrs a)) /\ is_private_any n = true /\
+    infixb n (emitted (s_finish (put_ad c (sstate_init false false) a))) = true.
+Proof.
+  exists {| c_opts := 0; c_whitelist := []; c_enc_attrs := []; c_peer := None |}.
+  exists {| ad_attrs := [([x43; x6c; x61; x69; x6d; x49; x64], [x22; x73; x22]);
+                         ([x4d; x79; x54; x79; x70; x65], [x43; x6c; x61; x69; x6d; x49; x64])];
+            ad_mytype := []; ad_targettype := [] |}.
+  exists [x43; x6c; x61; x69; x6d; x49; x64].
+  split; [reflexivity|]. split; [left; reflexivity|]. split; vm_compute; reflexivity.
+Qed.
